@@ -102,7 +102,10 @@ class ArrContent:
         self.numpy = numpy
 
     def copy(self):
-        return ArrContent(self.shape, self.data, self.kind, self.elem_ctype, self.numpy)
+        c = ArrContent(self.shape, self.data, self.kind, self.elem_ctype, self.numpy)
+        if getattr(self, 'readonly', False):
+            c.readonly = True
+        return c
 
     @property
     def ndim(self):
